@@ -174,8 +174,10 @@ func raceRun(p concProg, logOn bool, run func(bodies []func()) *vsync.Result) ([
 	obj := &concObj{ty: p.Ty}
 	add := func(e tt.Op, r tt.Res) {
 		r.V, r.S, r.Ok = 0, []int{}, !r.P // results are not judged here, only "it did not panic"
+		evMu.Lock()
 		ev = append(ev, e)
 		rs = append(rs, r)
+		evMu.Unlock()
 	}
 	for _, o := range p.Init {
 		tt.Exec(obj, o)
